@@ -123,15 +123,20 @@ pub fn check_stats(w: &mut World, st: &fatfs::FileSystemStats) -> Result<(), Vio
 }
 
 fn tolerated(f: &refdec::Finding, flux_paths: &[String]) -> bool {
-    matches!(f.kind, "size-chain-mismatch" | "empty-file-with-cluster" | "link-to-free" | "cross-link")
+    matches!(f.kind, "size-chain-mismatch" | "empty-file-with-cluster" | "link-to-free" | "cross-link" | "duplicate-entry")
         && f.subj.iter().any(|s| flux_paths.contains(s))
 }
 
 pub fn fsck_check(w: &World, p: &Parsed, flux: &[NodeId]) -> Result<(), Violation> {
     let flux_paths: Vec<String> = flux.iter().map(|n| refdec::path_str(&units(&w.model.path_of(*n)))).collect();
     for f in &p.findings {
-        if w.faulted && !matches!(f.kind, "cross-link" | "cycle" | "out-of-range-link") {
+        if w.faulted && !matches!(f.kind, "cross-link" | "cycle" | "out-of-range-link" | "chain-link-to-free" | "duplicate-entry") {
             continue;
+        }
+        if w.faulted && w.faulted_in_rename && f.kind == "duplicate-entry" {
+            // rename writes the destination entry before it deletes the source entry (so that an error cannot lose the
+            // object); an error between the two leaves both. Reported under its own class (a recorded finding).
+            return Err(viol("C03", "both-names-after-failed-rename", f.detail.clone(), w.step_no));
         }
         if tolerated(f, &flux_paths) {
             continue;
@@ -577,6 +582,11 @@ pub fn post_step(w: &mut World, s: &mut Session, ctx: &PostCtx) -> Result<(), Vi
         w.last_parsed = None;
     }
     process_writes(w, &writes, Some(&ctx.before), "call")?;
+    if o.free_count && !w.faulted && w.geo.fat_bits == 32 && w.geo.n_clusters <= 2_000_000 && !writes.is_empty() && crate::rng::hash_bytes(w.cfg.dev_seed ^ 0xC5, &(w.step_no as u64).to_le_bytes()) % 64 == 0 {
+        if let Some(b) = &ctx.before_store {
+            crash_count_check(w, b, &writes, "the call")?;
+        }
+    }
     if o.crash_log {
         let widx = w.crash.writes.len();
         match ctx.op {
@@ -918,21 +928,35 @@ pub fn extents_check(w: &mut World, s: &Session, p: &Parsed) -> Result<(), Viola
     Ok(())
 }
 
-/// C05 across a power cut inside unmount / drop: for every prefix of the device writes the unmount issued, the image
-/// is mounted and `stats()` must equal the free entries of the table (which the unmount does not touch).
-pub fn unmount_crash_check(w: &mut World, pre_end: &Store, writes: &[WriteRec]) -> Result<(), Violation> {
-    let want = w.parsed()?.free;
-    for k in 0..=writes.len() {
-        let mut img = pre_end.clone();
-        for wr in &writes[..k] {
+/// C05 across a power cut: for prefixes of the device writes of one phase (all of them for unmount / drop, a sample for
+/// an ordinary call), the image is mounted on a fresh device and `stats()` must equal the free entries of that image's
+/// table, counted independently.
+pub fn crash_count_check(w: &mut World, base: &Store, writes: &[WriteRec], phase: &str) -> Result<(), Violation> {
+    let g = w.geo.clone();
+    let n = writes.len();
+    let mut ks: Vec<usize> = (0..=n).collect();
+    if n > 12 {
+        ks = vec![0, 1, 2, n - 1, n];
+        for i in 0..3u64 {
+            ks.push((crate::rng::hash_bytes(w.cfg.dev_seed ^ i, &(w.step_no as u64).to_le_bytes()) % (n as u64 + 1)) as usize);
+        }
+        ks.sort_unstable();
+        ks.dedup();
+    }
+    let mut img = base.clone();
+    let mut applied = 0usize;
+    for k in ks {
+        for wr in &writes[applied..k] {
             if wr.data.len() != wr.len as usize {
                 return Ok(());
             }
             img.write_at(wr.off, &wr.data);
         }
-        let sd = std::rc::Rc::new(std::cell::RefCell::new(crate::disk::DiskState::new(img)));
+        applied = k;
+        let want = (2..g.n_clusters + 2).filter(|c| refdec::fat_val(&img, &g, *c) == 0).count() as u32;
+        let sd = std::rc::Rc::new(std::cell::RefCell::new(crate::disk::DiskState::new(img.clone())));
         sd.borrow_mut().log_mode = crate::disk::LogMode::Off;
-        sd.borrow_mut().arm(FaultPlan { budget: 2_000_000 + 5 * u64::from(w.geo.n_clusters), ..FaultPlan::default() });
+        sd.borrow_mut().arm(FaultPlan { budget: 2_000_000 + 5 * u64::from(g.n_clusters), ..FaultPlan::default() });
         let opts = fs_options(&w.cfg, &w.clock);
         let r = guarded(move || -> Result<u32, FErr> {
             let fs = Fs::new(crate::disk::SimDisk::new(sd), opts)?;
@@ -941,14 +965,14 @@ pub fn unmount_crash_check(w: &mut World, pre_end: &Store, writes: &[WriteRec]) 
             Ok(n)
         });
         w.stats.unmount_crash_images += 1;
-        let what = format!("power cut after device write {} of the {} that unmount / drop issued", k, writes.len());
+        let what = format!("power cut after device write {} of the {} that {} issued", k, n, phase);
         match r {
-            Guarded::Done(Ok(n)) => {
-                if n != want {
-                    return Err(viol("C05", "free-count-differs-after-interrupted-unmount", format!("{}: remount reports {} free clusters, the table has {}", what, n, want), w.step_no));
+            Guarded::Done(Ok(got)) => {
+                if got != want {
+                    return Err(viol("C05", "free-count-differs-after-power-cut", format!("{}: remount reports {} free clusters, the table has {}", what, got, want), w.step_no));
                 }
             }
-            Guarded::Done(Err(e)) => return Err(viol("C05", "remount-failed-after-interrupted-unmount", format!("{}: {:?}", what, e), w.step_no)),
+            Guarded::Done(Err(e)) => return Err(viol("C05", "remount-failed-after-power-cut", format!("{}: {:?}", what, e), w.step_no)),
             Guarded::Panic(m) => return Err(viol("C05", "panic", format!("{}: {}", what, m), w.step_no)),
             Guarded::Hang => return Err(viol("C05", "hang", what, w.step_no)),
         }
